@@ -592,8 +592,136 @@ def case_roundtrip(ctx, inp):
                + ("-empty-partition" if any(a == b for a, b in zip(inp["cuts"], inp["cuts"][1:])) else ""))
 
 
+
+# ---------------------------------------------------------------------------------------------------------------------
+# joint / history / source purity: several differently parameterised reads / writes of the SAME file / frame in one graph,
+# sequences of calls in one process (a file rewritten under the same name, a directory written twice), inputs unchanged
+# ---------------------------------------------------------------------------------------------------------------------
+
+def _shared_key_conflicts(graphs):
+    from dask.base import tokenize
+    out = []
+    for a in range(len(graphs)):
+        for b in range(a + 1, len(graphs)):
+            for k in set(graphs[a]) & set(graphs[b]):
+                if tokenize(graphs[a][k]) != tokenize(graphs[b][k]):
+                    out.append(str(k)[:80])
+    return out
+
+
+def _frame_rows(df, names_given):
+    return _pd_frame(df, names_given)[1]
+
+
+def case_joint(ctx, inp):
+    import dask
+    import pandas as pd
+    dd = U.dd()
+    text = inp["text"].encode("latin-1")
+    text2 = inp["text2"].encode("latin-1")
+    k = _ncols(text)
+    variants = inp["variants"]                       # [[bs, kw], …] : the same file read in differently parameterised ways
+    with _Tmp() as d:
+        p = os.path.join(d, "f.csv")
+        with open(p, "wb") as f:
+            f.write(text)
+
+        def build(v):
+            return dd.read_csv(p, blocksize=v[0], **_STR, **_kw_py(v[1], k))
+
+        def ref(v, path=None):
+            return pd.read_csv(path or p, **_STR, **_kw_py(v[1], k))
+        try:
+            with dask.config.set(scheduler="sync"):
+                exprs = [build(v) for v in variants]
+                graphs = [dict(e.__dask_graph__()) for e in exprs]
+                solo = [build(v).compute() for v in variants]
+                joint = dask.compute(*exprs)
+                parts0 = U.partitions(build(variants[0]))                 # history: the first read again, after the others
+                exps = [ref(v) for v in variants]
+                unchanged = open(p, "rb").read() == text
+                # history: the file is rewritten under the same name; a NEW read (another blocksize) must see the new content
+                with open(p, "wb") as f:
+                    f.write(text2)
+                k2 = _ncols(text2)
+                v2 = variants[-1]
+                re_read = dd.read_csv(p, blocksize=inp["bs2"], **_STR, **_kw_py(v2[1], k2)).compute()
+                re_exp = pd.read_csv(p, **_STR, **_kw_py(v2[1], k2))
+        except (pd.errors.EmptyDataError, pd.errors.ParserError):
+            ctx.branch("joint-read-refused-by-pandas")
+            return
+        except Exception as e:  # noqa: BLE001
+            ctx.fail("joint read_csv raised: " + U.exc_name(e), sig=SIG_FIRST if "Passed header" in str(e) or "No columns" in str(e) or "Mismatched" in str(e) else None,
+                     observed=U.exc_name(e))
+            return
+        for i, v in enumerate(variants):
+            e = _frame_rows(exps[i], v[1][1])
+            if _frame_rows(solo[i], v[1][1]) != e:
+                ctx.branch("joint-read-solo-differs")                # the one-shot sections report this with its signature
+                return
+            if _frame_rows(joint[i], v[1][1]) != e or [str(c) for c in joint[i].columns] != [str(c) for c in solo[i].columns]:
+                ctx.fail(f"read_csv{v} evaluated together with other reads of the same file differs from its solo result",
+                         observed=_frame_rows(joint[i], v[1][1])[:12], expected=e[:12])
+        if [r for q in parts0 for r in _frame_rows(q, variants[0][1][1])] != _frame_rows(exps[0], variants[0][1][1]):
+            ctx.fail("read_csv: the first read repeated after other reads in the same process gives other partitions")
+        bad = _shared_key_conflicts(graphs)
+        if bad:
+            ctx.fail("read_csv: graphs of differently parameterised reads of one file share keys with different tasks", observed=bad[:5])
+        if not unchanged:
+            ctx.fail("read_csv modified the file it read")
+        if _frame_rows(re_read, v2[1][1]) != _frame_rows(re_exp, v2[1][1]) or [str(c) for c in re_read.columns] != [str(c) for c in re_exp.columns]:
+            ctx.fail("read_csv of a file rewritten under the same name returns stale / mixed content",
+                     observed=_frame_rows(re_read, v2[1][1])[:12], expected=_frame_rows(re_exp, v2[1][1])[:12])
+    ctx.branch("joint-read-%d-variants" % len(variants))
+
+
+def case_joint_write(ctx, inp):
+    """two differently partitioned views of one frame written in ONE compute; the same directory written twice (fewer
+    partitions the second time); the source frame unchanged"""
+    import dask
+    import pandas as pd
+    dd = U.dd()
+    df = _tiny_frame(inp)
+    keep = df.copy(deep=True)
+    rows = [[str(v) for v in r] for r in df.itertuples(index=False)]
+    with _Tmp() as d:
+        try:
+            with dask.config.set(scheduler="sync"):
+                a = U.frame_from_cuts(df, inp["cuts"]).to_csv(os.path.join(d, "a-*.csv"), index=False, compute=False)
+                b = U.frame_from_cuts(df, inp["cuts2"]).to_csv(os.path.join(d, "b.csv"), index=False, single_file=True, compute=False)
+                c = U.frame_from_cuts(df, inp["cuts2"]).to_csv(os.path.join(d, "c-*.csv"), index=False, header=False, compute=False)
+                dask.compute(*a, *b, *c)
+                na, nc = len(inp["cuts"]) - 1, len(inp["cuts2"]) - 1
+                fa = [os.path.join(d, "a-%d.csv" % i) for i in range(na)]
+                fc = [os.path.join(d, "c-%d.csv" % i) for i in range(nc)]
+                got_a = pd.concat([pd.read_csv(f, **_STR) for f in fa])
+                got_b = pd.read_csv(os.path.join(d, "b.csv"), **_STR)
+                got_c = pd.concat([pd.read_csv(f, names=list(df.columns), header=None, **_STR) for f in fc])
+                # history: the same target written again with fewer partitions
+                first = U.frame_from_cuts(df, inp["cuts"]).to_csv(os.path.join(d, "h-*.csv"), index=False)
+                fewer = [0, len(df)]
+                second = U.frame_from_cuts(df.iloc[::-1], fewer).to_csv(os.path.join(d, "h-*.csv"), index=False)
+                got_h = pd.concat([pd.read_csv(f, **_STR) for f in second])
+        except Exception as e:  # noqa: BLE001
+            ctx.fail("joint to_csv raised: " + U.exc_name(e), observed=U.exc_name(e))
+            return
+        for name, got in (("multi-file", got_a), ("single-file", got_b), ("header=False", got_c)):
+            if [[str(v) for v in r] for r in got.itertuples(index=False)] != rows:
+                ctx.fail(f"to_csv ({name}) written in one compute with two other views of the same frame does not read back",
+                         observed=len(got), expected=len(rows))
+        if [[str(v) for v in r] for r in got_h.itertuples(index=False)] != rows[::-1]:
+            ctx.fail("to_csv: the files returned by a second write to the same target do not hold the second frame", observed=len(got_h))
+        if len(second) != 1 or len(first) != na:
+            ctx.fail("to_csv returns an unexpected number of written files", observed=[len(first), len(second)])
+        if na > 1:
+            ctx.branch("joint-write-stale-files-of-the-first-write-remain")      # not removed by design: only the returned names are read
+    if not df.equals(keep):
+        ctx.fail("to_csv modified the source frame")
+    ctx.branch("joint-write")
+
 CASES = {"pd_line": case_pd_line, "header_row": case_header_row, "block_kw": case_block_kw, "header_bytes": case_header_bytes,
-         "blocks": case_blocks, "to_csv": case_to_csv, "read_csv": case_read_csv, "roundtrip": case_roundtrip}
+         "blocks": case_blocks, "to_csv": case_to_csv, "read_csv": case_read_csv, "roundtrip": case_roundtrip,
+         "joint": case_joint, "joint_write": case_joint_write}
 
 
 # ---------------------------------------------------------------------------------------------------------------------
@@ -770,6 +898,32 @@ def _gen_api(ctx):
                             "blocksize": rng.choice([None, None, 8, 50])}
 
 
+def _gen_joint(ctx):
+    rng = ctx.rng
+    for _ in range(ctx.n(30, 300)):
+        text = _rand_text(rng, maxrows=6, blanks=rng.random() < 0.3)
+        hdr = next((ln for ln in text.split("\n") if ln.strip(" \t\r")), "a")
+        k = hdr.count(",") + 1
+        rows2 = [",".join(rng.choice(_FIELD[:8]) for _ in range(k)) for _ in range(rng.randint(1, 6))]
+        hdr2 = hdr.rstrip("\r") if rng.random() < 0.5 else ",".join("n%d" % i for i in range(k))     # other column names
+        text2 = "\n".join([hdr2] + rows2) + "\n"
+        if rng.random() < 0.4:
+            # the same length (and, written within the clock resolution, the same mtime) as before: the rows rotated
+            ls = text.split("\n")
+            body = [ln for ln in ls[1:] if ln != ""]
+            if len(body) > 1 and len(set(body)) > 1 and "\r" not in text and text.endswith("\n") and ls[0].strip():
+                text2 = "\n".join([ls[0]] + body[1:] + body[:1]) + "\n"
+        variants = [[rng.choice([None, 1, 2, 3, 5, 8, 13]), _rand_kw(rng, matrix_only=True)] for _ in range(rng.randint(2, 3))]
+        if rng.random() < 0.5:                    # same keywords, only the blocksize differs
+            for v in variants[1:]:
+                v[1] = list(variants[0][1])
+        yield "joint", {"text": text, "text2": text2, "variants": variants, "bs2": rng.choice([None, 2, 4, 7])}
+    for _ in range(ctx.n(12, 120)):
+        n = rng.randint(0, 7)
+        yield "joint_write", {"n": n, "k": rng.randint(1, 3), "cuts": U.rand_cuts(rng, n, maxparts=rng.choice([2, 3, 4]), p_empty=0.4),
+                              "cuts2": U.rand_cuts(rng, n, maxparts=rng.choice([1, 2, 5]), p_empty=0.4)}
+
+
 def _interleave(streams):
     """round-robin over the generator streams, so that a deadline cuts all of them proportionally"""
     its = [iter(s) for s in streams]
@@ -788,4 +942,4 @@ def generate(ctx):
     yield from _gen_block_kw(ctx)           # exhaustive, ~0.3 ms each
     # each stream draws from ctx.rng lazily; the interleaving order is deterministic for a seed
     yield from _interleave([_gen_pd_line(ctx), _gen_blocks(ctx), _gen_header_row(ctx), _gen_header_bytes(ctx),
-                            _gen_to_csv(ctx), _gen_api(ctx)])
+                            _gen_to_csv(ctx), _gen_api(ctx), _gen_joint(ctx)])
